@@ -469,7 +469,7 @@ fn mutated_requests(c: &mut Case<'_>) -> CaseResult {
     let env = build_env(&cfg);
     let backend = set_backend(c, &env);
     let mut base: Req = match c.t.below(8) {
-        0 => {
+        0 | 7 => {
             let mut b = c10::gen_form(c, 400);
             let mut form = b.form.clone();
             crate::refimpl::postform::sign_form(&mut form, &b.policy.to_base64(), &b.signer);
@@ -503,7 +503,7 @@ fn mutated_requests(c: &mut Case<'_>) -> CaseResult {
     for _ in 0..n_mut {
         let kind = *c.t.pick(&[
             "header-delete", "header-duplicate", "header-value-truncate", "header-value-extreme", "header-value-garbage", "query-delete", "query-duplicate", "query-value-extreme", "query-add-flag", "body-truncate", "body-byte", "body-splice",
-            "body-drop", "method-change", "path-segment", "content-length-lie", "add-multipart-type", "path-kind-change",
+            "body-drop", "method-change", "path-segment", "content-length-lie", "add-multipart-type", "path-kind-change", "form-structure", "form-structure",
         ]);
         classes.push(kind);
         match kind {
@@ -573,6 +573,45 @@ fn mutated_requests(c: &mut Case<'_>) -> CaseResult {
                 let piece: Vec<u8> = base.body[a..b].to_vec();
                 let at = c.t.below(base.body.len());
                 base.body.splice(at..at, piece);
+            }
+            "form-structure" => {
+                // structural damage to a multipart/form-data body (only where there is one)
+                let find = |hay: &[u8], needle: &[u8], from: usize| hay.get(from..).and_then(|h| h.windows(needle.len()).position(|w| w == needle)).map(|i| i + from);
+                let n_parts = base.body.windows(4).filter(|w| w == b"\r\n\r\n").count();
+                if n_parts > 0 && base.body.starts_with(b"--") {
+                    let k = c.t.below(n_parts);
+                    // position of the k-th header terminator
+                    let mut at = 0;
+                    for _ in 0..=k {
+                        at = find(&base.body, b"\r\n\r\n", at).map_or(base.body.len(), |i| i + 4);
+                    }
+                    let at = at.min(base.body.len());
+                    match c.t.below(5) {
+                        0 => {
+                            // the part has neither a value nor the CRLF before the next delimiter line
+                            if let Some(next) = find(&base.body, b"\r\n--", at.saturating_sub(2)) {
+                                if next + 2 >= at {
+                                    base.body.drain(at..next + 2);
+                                }
+                            }
+                        }
+                        1 => {
+                            // no blank line after the part headers
+                            base.body.drain(at - 2..at);
+                        }
+                        2 => base.body.truncate(at),
+                        3 => {
+                            // the closing delimiter loses its final "--"
+                            if let Some(i) = base.body.windows(4).rposition(|w| w == b"--\r\n") {
+                                base.body.drain(i..i + 2);
+                            }
+                        }
+                        _ => {
+                            // part headers only, directly followed by the end of the body
+                            base.body.truncate(at.saturating_sub(4));
+                        }
+                    }
+                }
             }
             "body-drop" => base.body.clear(),
             "method-change" => base.method = (*c.t.pick(&["GET", "PUT", "POST", "DELETE", "HEAD", "PATCH"])).to_owned(),
